@@ -712,9 +712,21 @@ impl<T> LockFreeStack<T> {
         }));
 
         loop {
+            #[cfg(zipora_verif)]
+            crate::memory::verif_sched::point(crate::memory::verif_sched::SP_PUSH_LOAD);
             let head = self.head.load(Ordering::Acquire);
+            #[cfg(zipora_verif)]
+            {
+                crate::memory::verif_sched::note(crate::memory::verif_sched::SP_PUSH_LOAD, head as usize as u64);
+                crate::memory::verif_sched::point(crate::memory::verif_sched::SP_PUSH_NEXT);
+            }
             unsafe {
                 (*new_node).next = head;
+            }
+            #[cfg(zipora_verif)]
+            {
+                crate::memory::verif_sched::note(crate::memory::verif_sched::SP_PUSH_NEXT, new_node as usize as u64);
+                crate::memory::verif_sched::point(crate::memory::verif_sched::SP_PUSH_CAS);
             }
 
             if self
@@ -722,27 +734,46 @@ impl<T> LockFreeStack<T> {
                 .compare_exchange_weak(head, new_node, Ordering::Release, Ordering::Relaxed)
                 .is_ok()
             {
+                #[cfg(zipora_verif)]
+                crate::memory::verif_sched::note(crate::memory::verif_sched::SP_PUSH_CAS, 1);
                 break;
             }
+            #[cfg(zipora_verif)]
+            crate::memory::verif_sched::note(crate::memory::verif_sched::SP_PUSH_CAS, 0);
         }
     }
 
     fn pop(&self) -> Option<T> {
         loop {
+            #[cfg(zipora_verif)]
+            crate::memory::verif_sched::point(crate::memory::verif_sched::SP_POP_LOAD);
             let head = self.head.load(Ordering::Acquire);
+            #[cfg(zipora_verif)]
+            crate::memory::verif_sched::note(crate::memory::verif_sched::SP_POP_LOAD, head as usize as u64);
             if head.is_null() {
                 return None;
             }
 
+            #[cfg(zipora_verif)]
+            crate::memory::verif_sched::point(crate::memory::verif_sched::SP_POP_NEXT);
             let next = unsafe { (*head).next };
+            #[cfg(zipora_verif)]
+            {
+                crate::memory::verif_sched::note(crate::memory::verif_sched::SP_POP_NEXT, next as usize as u64);
+                crate::memory::verif_sched::point(crate::memory::verif_sched::SP_POP_CAS);
+            }
             if self
                 .head
                 .compare_exchange_weak(head, next, Ordering::Release, Ordering::Relaxed)
                 .is_ok()
             {
+                #[cfg(zipora_verif)]
+                crate::memory::verif_sched::note(crate::memory::verif_sched::SP_POP_CAS, 1);
                 let data = unsafe { Box::from_raw(head).data };
                 return Some(data);
             }
+            #[cfg(zipora_verif)]
+            crate::memory::verif_sched::note(crate::memory::verif_sched::SP_POP_CAS, 0);
         }
     }
 
@@ -1273,6 +1304,49 @@ impl SecureMemoryPool {
     /// Get pool configuration
     pub fn config(&self) -> &SecurePoolConfig {
         &self.config
+    }
+
+    /// Verification inspector: address of the top node of the shared stack (0 = empty).
+    #[cfg(zipora_verif)]
+    pub fn verif_stack_head(&self) -> usize {
+        self.global_stack.head.load(Ordering::SeqCst) as usize
+    }
+
+    /// Verification inspector: `(next node address, chunk data address)` of a stack node.
+    ///
+    /// # Safety
+    /// `node` must be the address of a node that is currently linked in the shared stack.
+    #[cfg(zipora_verif)]
+    pub unsafe fn verif_stack_node(&self, node: usize) -> (usize, usize) {
+        let n = node as *const Node<SecureChunk>;
+        unsafe { ((*n).next as usize, (*n).data.as_ptr() as usize) }
+    }
+
+    /// Verification inspector: heap size of one node of the shared stack.
+    #[cfg(zipora_verif)]
+    pub fn verif_stack_node_size(&self) -> usize {
+        std::mem::size_of::<Node<SecureChunk>>()
+    }
+
+    /// Verification inspector: number of chunks in the calling thread's local cache.
+    #[cfg(zipora_verif)]
+    pub fn verif_local_cache_len(&self) -> usize {
+        self.local_caches.get().map(|c| c.borrow().len()).unwrap_or(0)
+    }
+
+    /// Verification inspector: data addresses of the chunks in the calling thread's local cache.
+    #[cfg(zipora_verif)]
+    pub fn verif_local_cache_chunks(&self) -> Vec<usize> {
+        self.local_caches
+            .get()
+            .map(|c| c.borrow().chunks.iter().map(|ch| ch.as_ptr() as usize).collect())
+            .unwrap_or_default()
+    }
+
+    /// Verification inspector: number of entries in the active-allocation table.
+    #[cfg(zipora_verif)]
+    pub fn verif_active_len(&self) -> usize {
+        self.active_allocations.len()
     }
 
     /// Validate pool integrity
